@@ -407,7 +407,7 @@ int main(void)
 		}
 		if (!strcmp(op, "matrix")) {
 			of_ldpc_staircase_cb_t *cb = (of_ldpc_staircase_cb_t *)s->ses;
-			if (s->codec != 3 || !cb->pchk_matrix) { printf("\n@bad-op\n"); goto next; }
+			if ((s->codec != 3 && s->codec != 5) || !cb->pchk_matrix) { printf("\n@bad-op\n"); goto next; }
 			printf("\n@ok rows=");
 			for (unsigned row = 0; row < s->r; row++) {
 				unsigned tmp[4096]; unsigned cnt = 0;
